@@ -157,18 +157,25 @@ def build_rust(modnames, timeout=1500):
     """
     import subprocess
 
-    pkgs = []
-    for m in modnames:
-        pkgs += ["-p", _RUST[m][0]]
     env = dict(os.environ, CARGO_NET_OFFLINE="true", CARGO_TARGET_DIR=rust_target_dir())
-    try:
-        p = subprocess.run(
-            ["cargo", "build", "--offline", "-q"] + pkgs, cwd=REPO, env=env,
-            stdout=subprocess.PIPE, stderr=subprocess.STDOUT, timeout=timeout, text=True,
-        )
-    except (subprocess.TimeoutExpired, OSError) as e:
-        return False, repr(e)
-    return p.returncode == 0, p.stdout[-4000:]
+    log = ""
+    # one cargo invocation per package: keeps feature unification (and so the
+    # build cache) independent of which combination a check asks for
+    for m in modnames:
+        try:
+            p = subprocess.run(
+                ["cargo", "build", "--offline", "-q", "-p", _RUST[m][0]], cwd=REPO, env=env,
+                stdout=subprocess.PIPE, stderr=subprocess.STDOUT, timeout=timeout, text=True,
+            )
+        except (subprocess.TimeoutExpired, OSError) as e:
+            return False, repr(e)
+        log += p.stdout[-3000:]
+        if p.returncode != 0:
+            return False, log
+    return True, log
+
+
+DEFAULT_RUST = ["breezy._osutils_rs", "breezy._cmd_rs"]
 
 
 def use_fresh_rust(modnames):
